@@ -51,6 +51,8 @@ const (
 
 type counters struct {
 	VotesGranted int64
+	Partitions, Bursts, Settles int64
+	CampPendingCC               int64 // campaigns asked of a node that has a committed, unapplied membership change
 	Actions, Delivered, Lost, Duplicated, Readies, Ticks  int64
 	Proposals, Committed                                  int64
 	MaxTerm, MaxLog                                       uint64
@@ -121,6 +123,8 @@ type sim struct {
 	appInFlight func(t uint64) bool
 
 	isolated uint64 // bit i set = node id i is cut off
+	parted   bool   // the network is split in two groups: messages between the groups are lost
+	side     uint64 // bit i set = node id i is in group B
 
 	leaders  map[uint64]uint64 // term -> the one node ever seen as leader in it
 	granted  map[[2]uint64]uint64 // (node, term) -> the candidate whose vote request that node granted in that term
@@ -846,7 +850,7 @@ func (s *sim) processReady(n *node, stopAt int) bool {
 // (target down or cut off).
 func (s *sim) deliver(m pb.Message) bool {
 	to := s.node(m.To)
-	if to == nil || to.rn == nil || s.cut(m.To) || s.cut(m.From) {
+	if to == nil || to.rn == nil || s.cut(m.To) || s.cut(m.From) || (s.parted && (s.side>>m.From)&1 != (s.side>>m.To)&1) {
 		s.lose(m, false)
 		return false
 	}
